@@ -384,10 +384,18 @@ fn detect_trials_get_rewound_reader() {
 /// nothing captured and source not exhausted => the BARE source (the very same box: no capture wrapper survives
 /// detection); otherwise a new reader (captured prefix chained in front of the source).  Decided without reading
 /// through Box<dyn Read> (which CBMC cannot afford); the chain's behaviour is FusedReader's contract plus std's Chain.
+// probe stub: counts how often the capture reader is taken apart (its parts handed on separately)
+static mut INTO_INNER_CALLS: u8 = 0;
+fn into_inner_probe<R: Read>(cr: CaptureReader<R>) -> (Cursor<Vec<u8>>, R) {
+	unsafe { INTO_INNER_CALLS += 1; }
+	(cr.prefix, cr.source)
+}
 #[kani::proof]
 #[kani::unwind(6)]
+#[kani::stub(CaptureReader::into_inner, into_inner_probe)]
 fn input_from_handle_decision() {
 	let (h, data, _len, off, eof) = any_handle::<4>();
+	unsafe { INTO_INNER_CALLS = 0; }   // any_handle() itself builds the handle from parts
 	let orig: *const u8 = match &h.0 { Source::Reader(g) => (&*g.0.source) as *const dyn Read as *const u8, Source::Slice(_) => std::ptr::null() };
 	let input = Input::from(h);
 	match &input {
@@ -402,6 +410,9 @@ fn input_from_handle_decision() {
 			let now: *const u8 = (&**r) as *const dyn Read as *const u8;
 			if off == 0 { assert!(now == orig, "nothing was captured: the bare source must be handed on, without a wrapper"); kani::cover!(true, "bare source"); }
 			else { assert!(now != orig, "captured bytes must be replayed in front of the source"); kani::cover!(true, "prefix chained"); }
+			// C05: whatever is handed on, the capture wrapper itself must not survive (it would go on copying every byte
+			// of the stream into the prefix buffer): the capture reader has been taken apart into prefix and source
+			assert!(unsafe { INTO_INNER_CALLS } == 1, "the capture reader survives the hand-over (it would keep capturing the whole stream)");
 		}
 	}
 	std::mem::forget(input);
